@@ -20,6 +20,9 @@ def run(chk, F):
     chk.guard("conversion-gate", "eval_query", lambda: gates(chk, F))
     chk.guard("conformance-error", "conformance_err", lambda: conformance(chk, F))
     chk.guard("exact-quotient", "Div for &Number", lambda: exact(chk, F))
+    # the unit *name* printed with the quotient is canonicalize(target): it must read the target the way lookup() did when
+    # the quotient was computed (same exact -> prefix -> plural order, first matching prefix)
+    chk.guard("reply-unit-name", "canonicalize", lambda: reply_name(chk, F))
     chk.floor("conversion-gate", 6)
 
 
@@ -213,3 +216,15 @@ def exact(chk, F):
     k2.gate_rule(chk, fn, "exact-quotient", "rink_core::Number::div", "exact-zero-test", acts, acc,
                  "the divisor is inverted only behind the exact test `other.value != Numeric::zero()`",
                  "Number::div inverts a divisor that was not compared exactly against zero")
+
+
+def reply_name(chk, F):
+    import c07
+    policy = {}
+    for fam, ex, wp, full in (("Registry::lookup", "loader::registry::Registry::lookup_exact", "loader::registry::Registry::lookup_with_prefix", "loader::registry::Registry::lookup"),
+                              ("Registry::canonicalize", "loader::registry::Registry::canonicalize_exact", "loader::registry::Registry::canonicalize_with_prefix", "loader::registry::Registry::canonicalize")):
+        c07.family(chk, F, fam, ex, wp, full, policy)
+    a, b = policy.get("Registry::lookup"), policy.get("Registry::canonicalize")
+    chk.decide(a is not None and a == b, "reply-unit-name", "rink_core::loader::registry::Registry", "canonicalize-reads-like-lookup", "",
+               "canonicalize selects the prefix the way lookup does: %s" % a,
+               "canonicalize and lookup select the prefix differently (%s vs %s): the unit named in a conversion reply is not the unit the quotient was computed with" % (b, a))
